@@ -542,7 +542,8 @@ def demand_source_stream(chk, n):
 
 
 def run(chk):
-    chk.rule = RULE
+    from props import c15_cs
+    chk.rule = RULE + ' ' + c15_cs.RULE_CS
     chk.trusted += ['single-stage network NW1 (coq/Sim/Single.v) is an instance of the simulator model Sim/Model.v, which is tied to /repo by the C06 correspondence; here additionally by exact comparison of IL / on-order / cost trajectories on generated single-stage instances',
                     'statistical stream: NumPy generators, batch-means normal approximation — search only, never a proof']
     chk.assume += ['ergodic convergence of time averages and the distributional assumptions about NumPy samples are not theorems about code',
@@ -581,6 +582,9 @@ def run(chk):
     expectation_stream(chk, 20 if quick else 200); lap('expectation')
     analytic_stream(chk, 60 if quick else 600); lap('analytic')
     serial_object_stream(chk, 12 if quick else 80, 60 if quick else 600); lap('serial-object')
+    # pathwise Clark-Scarf recursion (Sim/CS*.v, C15_serial_clark_scarf): checked period by period on the implementation, exact
+    from props import c15_cs
+    c15_cs.clark_scarf_stream(chk, 50 if quick else 400); lap('clark-scarf')
     statistical(chk, 6000 if quick else 40000, 3 if quick else 10); lap('statistical')
     if (chk.broken or chk.mismatches) and not chk.fails:
         for _ in range(10 * n):
@@ -597,6 +601,9 @@ def replay(chk, rp):
     c = rp['case']
     if c.get('stream') == 'statistical':
         print('statistical case: re-run ./check C15 --tier quick with the same seed to reproduce'); return
+    if 'S_loc' in c and 'chain' in c and c.get('stream') is None:
+        from props import c15_cs
+        c15_cs.replay_clark_scarf(chk, c); chk.case(c, True); return
     if c.get('stream') == 'serial-object':
         bad, _ = serial_object_oracle(c)
         for sig, what in bad:
